@@ -16,4 +16,55 @@ CONSTANTS = {
         ("DEFAULT_AUTO_THRESHOLD", _CUR, r"fn default\(\) -> Self \{\s*Self::Auto \{ threshold: (\d+) \}", "int"),
     ],
 }
+
+# ---- shape items: the regex pins a critical expression / guard / statement order; the single
+# group captures a literal inside it.  An edit of the pinned text makes the item LOST
+# (`<name>_lost = true`), which breaks the obligation `source_shape_ties`.
+_SEL = "parquet/src/arrow/arrow_reader/selection/"
+_REM = "parquet/src/arrow/push_decoder/remaining.rs"
+_RP = "parquet/src/arrow/arrow_reader/read_plan.rs"
+_AR = "parquet/src/arrow/arrow_reader/mod.rs"
+CONSTANTS["C06"] += [
+    # split_off (mask arm): head count from the tail's emptiness, tail count by subtraction
+    ("SHAPE_SPLIT_OFF_MASK_COUNT", _SEL + "mod.rs",
+     r"let head_count = if tail\.is_empty\(\) \{\s*total\s*\} else \{\s*head\.count_set_bits\(\)\s*\};\s*\(\s*MaskSelection::with_count\(head, head_count\),\s*MaskSelection::with_count\(tail, total - head_count\),\s*\)\s*\}\s*None => \(MaskSelection::new\(head\), MaskSelection::new\(tail\)\),[\s\S]*?let \(head, tail\) = split_off_selectors\(selectors, row_count\);()", "intlist"),
+    # split_off_selectors: first selector whose running total exceeds row_count; overflow split
+    ("SHAPE_SPLIT_OFF_SELECTORS", _SEL + "selector.rs",
+     r"let mut total_count = (0);\s*// Find the index where the selector exceeds the row count\s*let find = selectors\.iter\(\)\.position\(\|selector\| \{\s*total_count \+= selector\.row_count;\s*total_count > row_count\s*\}\);[\s\S]*?let overflow = total_count - row_count;\s*if next\.row_count != overflow \{\s*selectors\.push\(RowSelector \{\s*row_count: next\.row_count - overflow,\s*skip: next\.skip,\s*\}\)\s*\}\s*next\.row_count = overflow;", "int"),
+    # offset_selectors: guard and the two rebuilt selectors
+    ("SHAPE_OFFSET_SELECTORS", _SEL + "selector.rs",
+     r"let mut selected_count = (0);\s*let mut skipped_count = 0;[\s\S]*?true => \{\s*skipped_count \+= selector\.row_count;\s*false\s*\}\s*false => \{\s*selected_count \+= selector\.row_count;\s*selected_count > offset\s*\}[\s\S]*?new_selectors\.push\(RowSelector::skip\(skipped_count \+ offset\)\);\s*new_selectors\.push\(RowSelector::select\(selected_count - offset\)\);\s*new_selectors\.extend_from_slice\(&selectors\[split_idx \+ 1\.\.\]\);", "int"),
+    # limit_selectors
+    ("SHAPE_LIMIT_SELECTORS", _SEL + "selector.rs",
+     r"if limit == (0) \{\s*selectors\.clear\(\);\s*\}\s*for \(idx, selection\) in selectors\.iter_mut\(\)\.enumerate\(\) \{\s*if !selection\.skip \{\s*if selection\.row_count >= limit \{\s*selection\.row_count = limit;\s*selectors\.truncate\(idx \+ 1\);\s*break;\s*\} else \{\s*limit -= selection\.row_count;", "int"),
+    # offset_mask / limit_mask
+    ("SHAPE_OFFSET_LIMIT_MASK", _SEL + "boolean.rs",
+     r"if offset >= popcount \{\s*return BooleanBuffer::new_unset\((0)\);\s*\}[\s\S]*?let pos = mask\.find_nth_set_bit_position\(0, offset\);\s*let mut builder = BooleanBufferBuilder::new\(mask\.len\(\)\);\s*builder\.append_n\(pos, false\);\s*builder\.append_buffer\(&mask\.slice\(pos, mask\.len\(\) - pos\)\);[\s\S]*?let cut = mask\.find_nth_set_bit_position\(0, limit\);\s*mask\.slice\(0, cut\)", "int"),
+    # RowSelection::offset / limit count bookkeeping on the mask arm
+    ("SHAPE_OFFSET_LIMIT_COUNT", _SEL + "mod.rs",
+     r"if offset == (0) \{\s*return self;\s*\}[\s\S]*?let count = mask\.count\(\);\s*let buffer = offset_mask\(\(\*mask\)\.into_mask\(\), offset, count\);\s*Self::from_mask_selection\(MaskSelection::with_count\(\s*buffer,\s*count\.saturating_sub\(offset\),\s*\)\)[\s\S]*?Some\(count\) => Self::from_mask_selection\(MaskSelection::with_count\(\s*buffer,\s*count\.min\(limit\),\s*\)\),", "int"),
+    # and_then_iter: the processing step
+    ("SHAPE_AND_THEN_ITER", _SEL + "algebra.rs",
+     r"let mut to_skip = (0);\s*while let Some\(b\) = second\.peek_mut\(\) \{[\s\S]*?if a\.skip \{\s*// Records were skipped when producing second\s*to_skip \+= a\.row_count;\s*first\.next\(\)\.unwrap\(\);\s*continue;\s*\}\s*let skip = b\.skip;\s*let to_process = a\.row_count\.min\(b\.row_count\);\s*a\.row_count -= to_process;\s*b\.row_count -= to_process;\s*match skip \{\s*true => to_skip \+= to_process,", "int"),
+    # next_inner: selector loop (return_selector guard, need_read)
+    ("SHAPE_NEXT_INNER", _AR,
+     r"while read_records < batch_size && !selectors_cursor\.is_empty\(\) \{[\s\S]*?let need_read = batch_size - read_records;\s*let to_read = match front\.row_count\.checked_sub\(need_read\) \{\s*Some\(remaining\) if remaining != (0) => \{[\s\S]*?selectors_cursor\.return_selector\(RowSelector::select\(remaining\)\);\s*need_read\s*\}\s*_ => front\.row_count,\s*\};", "int"),
+    # read_mask_batch: loop condition and chunk request
+    ("SHAPE_READ_MASK_BATCH", _AR,
+     r"let mut selected_rows = (0);\s*let mut filter_mask = FilterMaskAccumulator::default\(\);\s*while selected_rows < batch_size && !mask_cursor\.is_empty\(\) \{\s*let mask_chunk = mask_cursor\.next_chunk\(batch_size - selected_rows\)\?;", "int"),
+    # build_limited: offset is applied before limit
+    ("SHAPE_BUILD_LIMITED_ORDER", _RP,
+     r"if let Some\(offset\) = offset \{\s*inner\.selection = Some\(match row_count\.checked_sub\(offset\) \{[\s\S]*?\.map\(\|selection\| selection\.offset\(offset\)\)[\s\S]*?if let Some\(limit\) = limit \{[\s\S]*?\.map\(\|selection\| selection\.limit\(limit\)\)[\s\S]*?RowSelection::from\(vec!\[RowSelector::select\(limit\.min\(row_count\)\)\]\)()", "intlist"),
+    # with_predicate_options: limit truncation and padding
+    ("SHAPE_PREDICATE_LIMIT", _RP,
+     r"Some\(limit\) if limit - matched_rows <= filter\.len\(\) => \{\s*let truncated = filter\.take_n_true\(limit - matched_rows\);\s*matched_rows \+= truncated\.true_count\(\);\s*filters\.push\(truncated\);\s*if matched_rows >= limit \{\s*break;[\s\S]*?&& processed_rows < expected\s*\{\s*let pad_len = expected - processed_rows;()", "intlist"),
+    # RowGroupFrontier: row_count() == 0 stop, split_off per row group, budget from the SELECTED rows
+    ("SHAPE_FRONTIER", _REM,
+     r"\.is_some_and\(\|selection\| selection\.row_count\(\) == (0)\)[\s\S]*?let selection = selection\.split_off\(row_count\);\s*let selected_rows = selection\.row_count\(\);\s*if selected_rows == 0 \{\s*self\.row_groups\.pop_front\(\);\s*continue;\s*\}\s*let selection = if selected_rows == row_count \{\s*None[\s\S]*?None => \(None, row_count\),[\s\S]*?match self\.plan_selected_row_group\(next_row_group, selected_rows\)", "int"),
+    ("SHAPE_FRONTIER_PLAN", _REM,
+     r"let rows_after_budget = self\.budget\.rows_after\(selected_rows\);\s*if rows_after_budget != (0) \{\s*return QueuedRowGroupDecision::Read\(next_row_group\);\s*\}\s*QueuedRowGroupDecision::Skip \{\s*remaining_budget: self\.budget\.advance\(selected_rows, rows_after_budget\),", "int"),
+    # RowBudget::rows_after / advance / apply_to_plan
+    ("SHAPE_BUDGET", _RB,
+     r"let rows_after_offset = rows_before_budget\.saturating_sub\(self\.offset\.unwrap_or\((0)\)\);\s*match self\.limit \{\s*Some\(limit\) => rows_after_offset\.min\(limit\),\s*None => rows_after_offset,[\s\S]*?let rows_before_budget = plan_builder\.num_rows_selected\(\)\.unwrap_or\(row_count\);[\s\S]*?let rows_after_budget = self\.rows_after\(rows_before_budget\);[\s\S]*?remaining_budget: self\.advance\(rows_before_budget, rows_after_budget\),[\s\S]*?\*offset = offset\.saturating_sub\(rows_before_budget - rows_after_budget\);[\s\S]*?\*limit -= rows_after_budget;", "int"),
+]
 FUNCTIONS = {}
